@@ -1,10 +1,10 @@
 SPECIFICATION Spec
 CONSTANTS
-  W = {"w1", "w2"}
+  W = {"w1"}
   MaxBody = 1
   Faults = 1
   Stale = {1}
-  DirMissing = FALSE
+  DirMissing = TRUE
   AnySplit = FALSE
   KeepHist = TRUE
   Reusers = {"w1"}
@@ -14,9 +14,5 @@ INVARIANT DestOldOrNew
 INVARIANT FailedIsClean
 INVARIANT DoneIsNew
 INVARIANT TempsDisjoint
-CONSTRAINT OneAbnormal
-ACTION_CONSTRAINT ReuseAbnormal
-CONSTRAINT MixedOrig
-ACTION_CONSTRAINT Canonical
 ACTION_CONSTRAINT EmitPath
 CHECK_DEADLOCK FALSE
